@@ -35,7 +35,7 @@ Definition class_code (r : race_obs) : N :=
   else if mem_str st ["cuckooSentCache"; "CuckooTraceChecker"; "keptTraceCacheEntry"; "KeptReasonsCache"] then 10
   else if mem_str st ["fileConfig"] then 11
   else if mem_str st ["ConfigWatcher"] then 12
-  else if mem_str st ["InMemCollector"; "CollectorWorker"; "StressRelief"] then 13
+  else if mem_str st ["InMemCollector"; "CollectorWorker"; "StressRelief"; "SamplerFactory"] then 13
   else if mem_str st ["DirectTransmission"; "eventBatch"] then 14
   else if mem_str st ["RedisPubsubPeers"] then 15
   else if mem_str st ["Router"] then 16
